@@ -9,11 +9,21 @@ import Mathlib.Tactic.Linarith
 
 namespace Amisc.C08
 
+/-- the formulas GENERATED from `System.refine` on every run are the ones the property speaks about:
+    `delta_work = max(1, cost)` and `error_indicator = delta_error / delta_work` -/
+theorem generated_work_is_max (cost : Q) : Gen.work cost = max 1 cost := by
+  unfold Gen.work
+  split
+  · next h => exact (max_eq_right (le_of_lt h)).symm
+  · next h => exact (max_eq_left (not_lt.mp h)).symm
+
+theorem generated_indicator_is_quotient (e w : Q) : Gen.indicatorOf e w = e / w := rfl
+
 /-- the cost by which the error is divided is at least one -/
 theorem work_ge_one (c : Cand) : 1 ≤ work c := by
-  unfold work; split
+  unfold work Gen.work; split
+  · next h => exact le_of_lt h
   · exact le_refl 1
-  · next h => exact not_lt.mp h
 
 /-- invariant of the scan: either a running maximum exists and the choice attains it over everything scanned, or
     everything scanned so far is undefined and the choice is the first scanned candidate -/
